@@ -225,6 +225,24 @@ Theorem C17_stable_sort_unique : forall r (l l' : list (okey * nat)),
   l' = sort_by (pair_le r) l.
 Proof. intros r. exact (stable_sort_unique (pair_le r) (pair_le_total r) (pair_le_trans r)). Qed.
 
+(* ------------------------------------------------------------------ the writers' own encodings *)
+
+(* Field norms: finalize_inner pads every per-field buffer to max_doc before the mapping indexes it, so at its
+   new doc id every document gets the byte recorded for it, and 0 if it lacks the field (also when it is among
+   the last documents added, for which the buffer holds no byte) -- for every field, independently. *)
+Theorem C17_fieldnorms_remapped : forall n n2o f new,
+  Permutation n2o (seq 0 n) -> (length f <= n)%nat -> (new < n)%nat ->
+  nth new (serialize_fieldnorms (Some (from_new_id_to_old_id n2o)) n f) 0 = nth (nth new n2o 0%nat) f 0.
+Proof. exact serialize_fieldnorms_spec. Qed.
+
+(* Term-frequency recorder (IndexRecordOption::WithFreqs): the deltas are between OLD doc ids; rebuilding the
+   old id before remapping makes serialize-with-mapping the remap of the posting list (C17_permutation then says
+   every (doc, tf) stays attached to its document). *)
+Theorem C17_tf_recorder_remapped : forall (m : doc_id_mapping) (pl : plist posting),
+  strictly_increasing_b (map fst pl) = true ->
+  serialize_tf_recorder m (delta_encode 0 (map fst pl)) (map snd pl) = remap_plist m pl.
+Proof. intros m pl. exact (serialize_tf_recorder_spec m pl). Qed.
+
 Print Assumptions C17_order_asc.
 Print Assumptions C17_order_desc.
 Print Assumptions C17_mapping_is_permutation.
@@ -250,3 +268,5 @@ Print Assumptions C17_numeric_spec_is_key_order.
 Print Assumptions C17_ordinal_key_order.
 Print Assumptions C17_bytes_spec_is_key_order.
 Print Assumptions C17_stable_sort_unique.
+Print Assumptions C17_fieldnorms_remapped.
+Print Assumptions C17_tf_recorder_remapped.
